@@ -6,9 +6,15 @@ import HtmlVerif.Model.FS
 
 namespace HtmlVerif
 
-/-- characters that mean nothing to a URL parser, to percent-decoding and to HTML attribute escaping:
-    unreserved characters plus `!` and `+` (which occur in normalised version strings such as `1!2.0+local`) -/
-def inertN (n : Nat) : Bool := isUnreservedN n || n == 0x21 || n == 0x2B
+/-- characters of a prefix / name / version that a URL reader takes literally: printable ASCII other than
+    `%` (percent-decoding), `#` `?` (fragment, query), `:` (scheme), `/` (separator) and `\` (which user agents
+    fold into `/`).  Space, `&`, `'`, `"`, `<`, `+`, `!`, `;`, `=`, `~` … are in: HTML attribute escaping of the
+    written file is undone by the HTML parser (C03), and `unquote` does not turn `+` into a space.
+    The library writes prefix, name and version *unencoded* (statement, clause 1), so the excluded characters are
+    exactly where clause 2 fails on the code as it is (`C12_urls_resolve_full_is_false`, finding F-C12);
+    non-ASCII characters are harmless but outside what is proved (the executable statement covers them). -/
+def inertN (n : Nat) : Bool :=
+  0x20 ≤ n && n < 0x7F && n != 0x25 && n != 0x2F && n != 0x3F && n != 0x23 && n != 0x3A && n != 0x5C
 
 def inertC (c : Char) : Bool := inertN c.toNat
 
@@ -123,5 +129,46 @@ def hrefBaseSpec (lp : Option Str) (dn : Str) : Str :=
     if l.isEmpty then dn
     else if l.getLast? = some '/' then l ++ dn
     else l ++ '/' :: dn
+
+end HtmlVerif
+
+namespace HtmlVerif
+
+/-! ### the statement without the character guards (what the executable statement evaluates; finding F-C12) -/
+
+/-- a single path component with **any** characters: not empty, no `/`, no NUL, not `.` / `..` -/
+def WideSeg (s : Str) : Bool :=
+  !s.isEmpty && !s.contains '/' && !s.contains (Char.ofNat 0) && s != strDot && s != strDotDot
+
+/-- a relative directory with **any** characters: not rooted, no `.` / `..` / NUL component -/
+def WideDir (l : Str) : Bool := l.head? != some '/' && (segs (utf8 l)).all goodSeg
+
+def WideDirOpt : Option Str → Bool
+  | none => true
+  | some l => l.isEmpty || WideDir l
+
+/-- the characters a URL reader interprets and the library leaves unencoded in prefix, name and version -/
+def urlSpecialC (c : Char) : Bool := c == '%' || c == '#' || c == '?'
+
+/-- `[prefix/]name[-version]` contains `%`, `#` or `?`, or a `:` in its first component (read as a scheme) -/
+def urlSpecial (base : Str) : Bool := base.any urlSpecialC || (base.takeWhile (· != '/')).contains ':'
+
+/-- clause 2 of the statement for one URL, exactly as worded: read as a relative reference and percent-decoded it
+    names `libdir/name[-version]/p` below the directory of the HTML file -/
+def agreeFull (lp : Option Str) (dn p url : Str) : Bool :=
+  relRefOk url && segs (unquoteB url) == segsOpt lp ++ [utf8 dn] ++ segs (utf8 p)
+
+end HtmlVerif
+
+namespace HtmlVerif
+
+/-- exactly one key of the dict `s` normalises to the attribute name `k` (`src_`, `src` and `src__`… would be merged
+    into one attribute by `Tag(**s)`; such dicts are outside "each script URL") -/
+def SoleKey (k : Str) (s : KVs) : Bool := (s.filter fun kv => normAttrName kv.1 == k).length == 1
+
+/-- the value of attribute `k` of a node that is a `<nm>` tag -/
+def tagAttr (nm k : Str) : Node → Option AttrVal
+  | .tag n _ a _ => if n = nm then alookup k a else none
+  | _ => none
 
 end HtmlVerif
